@@ -283,7 +283,9 @@ class Base:
                 annotations = self.annotations if not args or not any(self is arg for arg in args) else ()
             else:
                 annotations = simplified.annotations
-        if variables is None and op in all_operations:
+        if variables is None and op in operations.leaf_operations_symbolic:
+            # only a symbol's variables cannot be derived from its arguments; a "union" over new arguments must
+            # not inherit the variables of the arguments that were replaced
             variables = self.variables
         if symbolic is None and op in all_operations:
             symbolic = self.symbolic
